@@ -9,6 +9,7 @@ static uint32_t MV[MVMAX + 8];
 uint32_t ce_nmoves, ce_i, ce_j;
 #define SC_EP 1        /* scenario: an en-passant square is set and a pawn of the side to move stands next to the pushed pawn */
 #define SC_CASTLE 2    /* scenario: the side to move has at least one castling right */
+#define SC_EPRANK 8    /* scenario (with SC_EP): king and an enemy rook/queen on the rank of the capturing and the captured pawn */
 #define SC_CHECK 4     /* scenario: the side to move is in check */
 static void scenario(uint32_t side, int sc) {
   if (sc & SC_EP) {
@@ -16,6 +17,13 @@ static void scenario(uint32_t side, int sc) {
     uint32_t pawn = side ? S.ep + 8 : S.ep - 8, own = side ? 7 : 1;
     int left = (pawn & 7) > 0 && S.b[(pawn - 1) & 63] == own, right = (pawn & 7) < 7 && S.b[(pawn + 1) & 63] == own;
     __CPROVER_assume(left || right);
+  }
+  if (sc & SC_EPRANK) {   /* ... and the capturing side's king and an enemy rook or queen stand on the rank of the two pawns (the capture clears that rank) */
+    uint32_t pawn = side ? S.ep + 8 : S.ep - 8, rk = pawn >> 3;
+    __CPROVER_assume((s_king_sq(&S, side) >> 3) == rk);
+    int on_rank = 0;
+    for (int f = 0; f < 8; f++) { uint32_t pc = S.b[8 * rk + f]; if (pc == (side ? 4 : 10) || pc == (side ? 5 : 11)) on_rank = 1; }
+    __CPROVER_assume(on_rank);
   }
   if (sc & SC_CASTLE) __CPROVER_assume(S.cr & (side ? 12 : 3));
   if (sc & SC_CHECK) __CPROVER_assume(S_ATTACKED(&S, s_king_sq(&S, side), 1 - side));
